@@ -42,7 +42,11 @@ func (rc *CRespCodec) Decode(c CConn) (*Msg, error) {
 
 	line, err := buf.ReadLine()
 	if err != nil {
-		return nil, errors.ErrIncompletePacket
+		if err == codec.ErrLFNotFound {
+			return nil, errors.ErrIncompletePacket
+		}
+		// a complete but malformed header line can never become valid by waiting for more bytes
+		return nil, codec.ErrInvalidResp
 	}
 
 	msgId++
@@ -53,7 +57,7 @@ func (rc *CRespCodec) Decode(c CConn) (*Msg, error) {
 		n, err = parseLen(line[1:])
 		if n < 1 || err != nil {
 			logging.Warnf("[%dm][%dc] unexpect resp, buf: %s", msgId, c.Fd(), utils.FormatRedisRESPMessages(buf.PeekAll()))
-			return nil, err
+			return nil, codec.ErrInvalidResp
 		}
 	default:
 		logging.Warnf("[%dm][%dc] unexpect resp, buf: %s", msgId, c.Fd(), utils.FormatRedisRESPMessages(buf.PeekAll()))
@@ -280,13 +284,16 @@ func (rc *CRespCodec) MSet(resp *Msg) {
 func (rc *CRespCodec) parseLine(buf *codec.Buffer) ([]byte, error) {
 	line, err := buf.ReadLine()
 	if err != nil {
+		if err == codec.BadLine {
+			return nil, codec.ErrInvalidResp
+		}
 		return nil, err
 	}
 	switch line[0] {
 	case '$':
 		n, err := parseLen(line[1:])
 		if n < 0 || err != nil {
-			return nil, err
+			return nil, codec.ErrInvalidResp
 		}
 		b, err := buf.ReadN(n)
 		if err != nil {
